@@ -60,7 +60,9 @@ impl<F: Fn(u64) -> usize> Iterator for FindChangePoints<F> {
             if new_val != self.prev_value {
                 break;
             }
-            step *= 2;
+            // When doubling overflows no further step can be tried: saturate, so
+            // that the check at the top of the loop ends the search.
+            step = step.saturating_mul(2);
         }
 
         // Binary search in the last exponential step to find exact change point
